@@ -47,8 +47,15 @@ func runC04(c *Ctx) {
 	var deferIns *ssa.Defer
 	for _, call := range callsIn(run) {
 		if d, ok := call.(*ssa.Defer); ok {
+			// the deferred function: a closure, or a named repository function deferred directly (recover() is
+			// effective in either, as long as it is called by the deferred function itself)
+			var fn *ssa.Function
 			if mc, ok := d.Call.Value.(*ssa.MakeClosure); ok {
-				fn := mc.Fn.(*ssa.Function)
+				fn = mc.Fn.(*ssa.Function)
+			} else if g := w.helperOf(d); g != nil {
+				fn = g
+			}
+			if fn != nil {
 				// direct recover
 				direct := false
 				for _, cc := range callsIn(fn) {
@@ -65,8 +72,26 @@ func runC04(c *Ctx) {
 	if deferIns == nil {
 		c.Bad("R1.recover", "Run|deferred closure calling recover() directly", w.FnPos(run), "gensign.Run does not defer a closure that itself calls recover() (recover in a helper called by the deferred function does not stop a panic)")
 	} else {
-		clo := deferIns.Call.Value.(*ssa.MakeClosure).Fn.(*ssa.Function)
+		var clo *ssa.Function
+		if mc, ok := deferIns.Call.Value.(*ssa.MakeClosure); ok {
+			clo = mc.Fn.(*ssa.Function)
+		} else {
+			clo = w.helperOf(deferIns)
+		}
 		c.Saw(clo)
+		// resultCell: the variable of Run that address addr (a captured variable of the closure, or a pointer parameter
+		// of the deferred function bound to &variable) denotes
+		resultCell := func(addr ssa.Value) ssa.Value {
+			switch x := addr.(type) {
+			case *ssa.FreeVar:
+				return freeVarBinding(x)
+			case *ssa.Parameter:
+				if i := paramIndex(x); x.Parent() == clo && i >= 0 && i < len(deferIns.Call.Args) {
+					return deferIns.Call.Args[i]
+				}
+			}
+			return nil
+		}
 		// dominates every invoke
 		okDom := true
 		for _, call := range callsIn(run) {
@@ -90,11 +115,10 @@ func runC04(c *Ctx) {
 				if !ok {
 					continue
 				}
-				fv, ok := st.Addr.(*ssa.FreeVar)
-				if !ok {
+				bind := resultCell(st.Addr)
+				if bind == nil {
 					continue
 				}
-				bind := freeVarBinding(fv)
 				a, isAlloc := bind.(*ssa.Alloc)
 				if !isAlloc || !strings.HasSuffix(a.Type().String(), "*error") {
 					continue
@@ -125,7 +149,7 @@ func runC04(c *Ctx) {
 			for _, b := range clo.Blocks {
 				for _, ins := range b.Instrs {
 					if st, ok := ins.(*ssa.Store); ok {
-						if _, isFV := st.Addr.(*ssa.FreeVar); isFV {
+						if resultCell(st.Addr) != nil {
 							if k, okK := errKindOf(st.Val); okK && k == m.Kinds["Panic"] {
 								stores[ins] = true
 							}
@@ -181,49 +205,61 @@ func runC04(c *Ctx) {
 	}
 
 	// ---- R2: kinds per failing site ----
+	// The failing site is recognised from the literals that hold when a value reaches Run's result - whether the
+	// error is built in Run itself or in a helper whose error Run returns unchanged (the helper's return-site
+	// literals travel with the value).
 	type site struct {
 		name string
 		want string
-		cond func(b *ssa.BasicBlock) bool
+		cond func(facts map[Lit]bool) bool
 	}
 	genRecv := m.GenCall.Call.Value
 	addErr := ssa.Value(m.AddCall)
+	nonNilIn := func(facts map[Lit]bool, v ssa.Value) bool { n, k := f.knownNilIn(facts, v); return k && !n }
 	sites := []site{
-		{"no handler authenticated", "AllAuthFailed", func(b *ssa.BasicBlock) bool { n, k := f.KnownNil(b, genRecv); return k && n }},
-		{"signer failed", "SignerSignErr", func(b *ssa.BasicBlock) bool { n, k := f.KnownNil(b, m.SignErr); return k && !n }},
-		{"agent refused the certificates", "AgentOpCertErr", func(b *ssa.BasicBlock) bool { n, k := f.KnownNil(b, addErr); return k && !n }},
-		{"no CSR generated", "HandlerGenCSRErr", func(b *ssa.BasicBlock) bool {
-			return f.Any(b, func(l Lit) bool {
+		{"no handler authenticated", "AllAuthFailed", func(facts map[Lit]bool) bool { n, k := f.knownNilIn(facts, genRecv); return k && n }},
+		{"signer failed", "SignerSignErr", func(facts map[Lit]bool) bool { return nonNilIn(facts, m.SignErr) }},
+		{"agent refused the certificates", "AgentOpCertErr", func(facts map[Lit]bool) bool { return nonNilIn(facts, addErr) }},
+		{"no CSR generated", "HandlerGenCSRErr", func(facts map[Lit]bool) bool {
+			for l := range facts {
 				bin, ok := l.V.(*ssa.BinOp)
 				if !ok || !l.Pol || bin.Op != token.EQL {
-					return false
+					continue
 				}
 				la := lenArg(bin.X)
 				k, isK := intConst(bin.Y)
-				return la != nil && la == m.GenKeys && isK && k == 0
-			})
+				if la != nil && w.SameValue(run, la, m.GenKeys) && isK && k == 0 {
+					return true
+				}
+			}
+			return false
 		}},
 	}
 	for _, s := range sites {
 		n := 0
 		for _, r := range liveReturns(run) {
-			if r.Block() == run.Recover || !s.cond(r.Block()) {
+			if r.Block() == run.Recover {
 				continue
 			}
-			n++
-			ok := true
-			var got []string
+			at := f.At(r.Block())
 			for _, lf := range w.LeavesErr(r.Results[0], r) {
+				all := copyFacts(lf.Facts)
+				for l := range at {
+					all[l] = true
+				}
+				if !s.cond(all) {
+					continue
+				}
 				k, isK := errKindOf(lf.Val)
 				if isK && k == m.Kinds["Panic"] {
 					continue
 				}
-				got = append(got, w.Short(lf.Val))
-				if !isK || k != m.Kinds[s.want] {
-					ok = false
+				if isNilConst(strip(lf.Val)) && !s.cond(lf.Facts) {
+					continue
 				}
+				n++
+				c.Check(isK && k == m.Kinds[s.want], "R2.kinds", "Run|"+s.name+" => "+s.want, w.Pos(lf.Val.Pos()), "returns *Error{"+s.want+"}", "wrong error kind at this failing site: "+w.Short(lf.Val))
 			}
-			c.Check(ok, "R2.kinds", "Run|"+s.name+" => "+s.want, w.Pos(r.Pos()), "returns *Error{"+s.want+"}", "wrong error kind at this failing site: "+strings.Join(got, " | "))
 		}
 		c.Floor("R2.kinds", n, 1, "return for '"+s.name+"'")
 	}
